@@ -698,6 +698,10 @@ func (p *Printer) raw(n *Node) {
 			p.w("max")
 			p.nos(n.Kids[4])
 		}
+	case "xdice":
+		// a custom dice operand (C17): S is the operand text, printed verbatim; like a dice
+		// term it is an operand of the exprDice level that swallows no trailing whitespace
+		p.w(n.S)
 	case "fate":
 		p.w("f")
 	case "coc":
@@ -804,7 +808,7 @@ func endsBare(text string) bool {
 func bareEnd(n *Node) bool {
 	for n != nil {
 		switch n.K {
-		case "int", "flt", "var", "dice":
+		case "int", "flt", "var", "dice", "xdice":
 			return true
 		case "set", "setc", "setca", "setthis", "setattr", "setidx", "setslice", "bin", "neg", "pos":
 			if len(n.Kids) == 0 {
